@@ -414,6 +414,23 @@ class Engine:
             return self.class_term(v.info if v.info is not None else v.ext)
         if isinstance(v, PSeq):
             return Val.tup(v.seq)
+        if isinstance(v, FuncV) and "BufFn" in self.reg.shapes and not self.spec_mode and isinstance(v.node, ast.Lambda) \
+                and isinstance(v.node.body, ast.List) and not v.node.args.args and v.env is not None:
+            # `lambda: [e1, e2]` over captured immutable values: a closure object that returns a NEW list of these items each call
+            key = self._closure_key(v)
+            t = self.closures.get(key)
+            if t is None:
+                self.spec_envs.append(v.env)
+                try:
+                    items = [self.to_term(self.ev(e), node) for e in v.node.body.elts]
+                finally:
+                    self.spec_envs.pop()
+                obj = self.alloc("function", "BufFn")
+                self.set_field(self.refof(obj), "items", Val.tup(so.seq_of(items)))
+                self.set_field(self.refof(obj), "buf", Val.absent)
+                t = (obj.term, v)
+                self.closures[key] = t
+            return t[0]
         if isinstance(v, FuncV) and "BufFn" in self.reg.shapes and not self.spec_mode:
             cap = captured_name(v)
             if cap is not None and v.env is not None and cap in v.env:
@@ -424,6 +441,7 @@ class Engine:
                 if t is None:
                     obj = self.alloc("function", "BufFn")
                     self.set_field(self.refof(obj), "buf", self.to_term(v.env[cap], node))
+                    self.set_field(self.refof(obj), "items", Val.absent)
                     t = (obj.term, v)
                     self.closures[key] = t
                 return t[0]
